@@ -3,6 +3,8 @@ package main
 import (
 	"fmt"
 	"math/rand"
+	"runtime"
+	"time"
 
 	"github.com/acquirecloud/golibs/container/iterable"
 )
@@ -67,6 +69,9 @@ func (o *imObj) apply(s Step) Step {
 		o.its[s.Int("i")].Close()
 		delete(o.its, s.Int("i"))
 		o.open--
+		got["i"] = s.Int("i")
+	case "Drop": // forget the iterator without closing it
+		delete(o.its, s.Int("i"))
 		got["i"] = s.Int("i")
 	}
 	return got
@@ -163,6 +168,18 @@ func driveIterMap(opt *Options) error {
 	keys := []string{"a", "b", "c", "d", "e", "f"}
 	nIt := 8
 	driveIterMapLarge(tw, rnd)
+	for v := 0; v < 4; v++ {
+		driveIterMapManyIters(tw, rnd, v)
+	}
+	storms := 12
+	if opt.N > 200 {
+		storms = 100
+	}
+	for v := 0; v < storms; v++ {
+		if !driveIterMapGcStorm(tw, rnd) {
+			break
+		}
+	}
 	for t := 0; t < opt.N; t++ {
 		o := newImObj()
 		tw.Emit(map[string]any{"op": "New"})
@@ -304,4 +321,192 @@ func driveIterMapLarge(tw *TraceWriter, rnd *rand.Rand) {
 		}
 	}
 	do(Step{"op": "Close", "i": 3})
+}
+
+// imDo performs one logged call with the list statistics attached; false after a crash.
+func imDo(tw *TraceWriter, o *imObj, nextID *int, s Step) bool {
+	var got Step
+	if p, pv := callPanics(func() { got = o.apply(s) }); p {
+		tw.Emit(map[string]any{"op": s.Str("op"), "crash": firstLine(fmt.Sprint(pv))})
+		return false
+	}
+	if s.Str("op") == "Add" && got["err"] == false {
+		*nextID++
+	}
+	_, st := o.retention()
+	got["nodes"], got["deleted"], got["open"], got["len"], got["stale"] = st["nodes"], st["deleted"], st["open"], st["len"], st["stale"]
+	tw.Emit(got)
+	return true
+}
+
+// driveIterMapManyIters: dozens of iterators parked on dozens of distinct entries, every entry (or all but one)
+// removed under them, new entries added: every parked iterator, First and a new iterator must see exactly the
+// new entries, in order.
+func driveIterMapManyIters(tw *TraceWriter, rnd *rand.Rand, variant int) {
+	o := newImObj()
+	tw.Emit(map[string]any{"op": "New"})
+	nextID := 1
+	do := func(s Step) bool { return imDo(tw, o, &nextID, s) }
+	key := func(i int) string { return fmt.Sprintf("m%d", i) }
+	n := 34 + rnd.Intn(60)
+	for i := 0; i < n; i++ {
+		do(Step{"op": "Add", "k": key(i), "v": nextID})
+	}
+	for it := 1; it <= n; it++ { // iterator `it` is parked after `it-1` entries: one on every entry, one before the first
+		do(Step{"op": "Iterator", "i": it})
+		for j := 0; j < it-1; j++ {
+			if !do(Step{"op": "Next", "i": it}) {
+				return
+			}
+		}
+	}
+	order := rnd.Perm(n)
+	switch variant % 4 {
+	case 1:
+		for i := range order {
+			order[i] = i
+		}
+	case 2:
+		for i := range order {
+			order[i] = n - 1 - i
+		}
+	}
+	keep := -1
+	if variant%2 == 1 {
+		keep = rnd.Intn(n)
+	}
+	for _, i := range order {
+		if i == keep {
+			continue
+		}
+		if !do(Step{"op": "Remove", "k": key(i)}) {
+			return
+		}
+	}
+	do(Step{"op": "Len"})
+	do(Step{"op": "First"})
+	m := 1 + rnd.Intn(4)
+	for i := 0; i < m; i++ {
+		do(Step{"op": "Add", "k": key(n + i), "v": nextID})
+	}
+	do(Step{"op": "First"})
+	do(Step{"op": "Len"})
+	for it := 1; it <= n; it++ {
+		do(Step{"op": "HasNext", "i": it})
+		for j := 0; j < m+2; j++ {
+			if !do(Step{"op": "Next", "i": it}) {
+				return
+			}
+		}
+		if it%3 == 0 {
+			do(Step{"op": "Close", "i": it})
+		}
+	}
+	do(Step{"op": "Iterator", "i": 100})
+	for j := 0; j < m+3; j++ {
+		do(Step{"op": "Next", "i": 100})
+	}
+	do(Step{"op": "Add", "k": key(n + m), "v": nextID})
+	for it := 1; it <= n; it++ {
+		if _, ok := o.its[it]; ok {
+			do(Step{"op": "Next", "i": it})
+			do(Step{"op": "Close", "i": it})
+		}
+	}
+	do(Step{"op": "Next", "i": 100})
+	do(Step{"op": "Close", "i": 100})
+	do(Step{"op": "First"})
+}
+
+// driveIterMapGcStorm: iterators that are forgotten without Close, under garbage-collection pressure, while the
+// single-threaded owner goes on using the map.  Creating an iterator and forgetting it at once has no observable
+// effect, so those calls are not logged (stuttering steps); whatever the library does behind the owner's back with
+// forgotten iterators must not disturb the owner's history.  Returns false after a crash.
+func driveIterMapGcStorm(tw *TraceWriter, rnd *rand.Rand) bool {
+	o := newImObj()
+	tw.Emit(map[string]any{"op": "New"})
+	nextID := 1
+	do := func(s Step) bool { return imDo(tw, o, &nextID, s) }
+	key := func(i int) string { return fmt.Sprintf("g%d", i) }
+	const nk = 16
+	for i := 0; i < nk; i++ {
+		do(Step{"op": "Add", "k": key(i), "v": nextID})
+	}
+	id := 1
+	for i := 0; i < nk; i++ { // 4 kept iterators parked on every entry
+		for c := 0; c < 4; c++ {
+			do(Step{"op": "Iterator", "i": id})
+			for j := 0; j <= i; j++ {
+				do(Step{"op": "Next", "i": id})
+			}
+			id++
+		}
+	}
+	ok := true
+	noise := func(n int) {
+		p, pv := callPanics(func() {
+			for i := 0; i < n; i++ {
+				if i%50000 == 0 {
+					go runtime.GC() // the owner goes on while the collector (and whatever it triggers) runs
+				}
+				it := o.m.Iterator()
+				o.open++ // never closed by the user: it counts as open for ever (retention bound of C11)
+				for j := i % nk; j > 0; j-- {
+					it.Next()
+				}
+				_ = it
+			}
+		})
+		if p {
+			tw.Emit(map[string]any{"op": "Iterator", "crash": firstLine(fmt.Sprint(pv))})
+			ok = false
+		}
+	}
+	// some kept iterators are forgotten as well (at most one per entry)
+	for i := 0; i < 5 && ok; i++ {
+		it := 1 + 4*rnd.Intn(nk)
+		if _, open := o.its[it]; open {
+			ok = do(Step{"op": "Drop", "i": it})
+		}
+	}
+	noise(100000) // one uninterrupted run of short-lived iterators; collections happen while the owner goes on
+	ok = ok && do(Step{"op": "First"}) && do(Step{"op": "Len"})
+	runtime.GC()
+	time.Sleep(20 * time.Millisecond)
+	runtime.GC()
+	time.Sleep(10 * time.Millisecond)
+	if !ok {
+		return false
+	}
+	// entries are removed from the back, the kept iterators parked on them move on: each reports what the contract
+	// says (nothing is left behind it), and a node that is still pinned must not have been recycled
+	for j := nk - 1; j >= 0; j-- {
+		if !do(Step{"op": "Remove", "k": key(j)}) {
+			return false
+		}
+		for c := 0; c < 4; c++ {
+			it := 1 + 4*j + c
+			if _, open := o.its[it]; open {
+				if !do(Step{"op": "Next", "i": it}) {
+					return false
+				}
+			}
+		}
+	}
+	do(Step{"op": "Len"})
+	do(Step{"op": "Add", "k": key(nk), "v": nextID})
+	for it := 1; it < id; it++ {
+		if _, open := o.its[it]; open {
+			if !do(Step{"op": "Next", "i": it}) || !do(Step{"op": "Close", "i": it}) {
+				return false
+			}
+		}
+	}
+	do(Step{"op": "Iterator", "i": 100})
+	for j := 0; j < nk+2; j++ {
+		if !do(Step{"op": "Next", "i": 100}) {
+			return false
+		}
+	}
+	return do(Step{"op": "Close", "i": 100})
 }
